@@ -1,2 +1,4 @@
 //! Generated per-shape wrappers (shapes/*.py).
 pub mod c03;
+pub mod c04;
+pub mod c05;
